@@ -25,8 +25,8 @@ func init() {
 			"a unit whose announced count is too small but otherwise well-formed is indistinguishable from a shorter unit followed by single operations and is not judged",
 			"hang classification: the delivery goroutine is still inside ReceiveRemoteModelOperations on three stack samples 1 s apart",
 		},
-		Cases: func(t string) int { return tierN(t, 1200, 40000) },
-		Floor: func(t string) int { return tierN(t, 200, 8000) },
+		Cases: func(t string) int { return tierN(t, 3000, 40000) },
+		Floor: func(t string) int { return tierN(t, 500, 8000) },
 		Run:   runC09,
 	})
 }
